@@ -53,6 +53,28 @@ func runReader(c *Case, o *Opts, env *ioEnv, out *simWriter) error {
 		fmt.Fprintf(&sb, "%d\t%s\t%s\t%s", r.Idx, r.ID, r.Description, db.String())
 		if scored {
 			fmt.Fprintf(&sb, "\t%d\t%d,%d,%d,%d", r.Score, r.Count_A, r.Count_C, r.Count_G, r.Count_T)
+		} else {
+			// how the gaps of this record are encoded: 'h' = shares no base with anything (hard gap), 's' = shares a
+			// base with every nucleotide (soft gap), 'x' = anything else. (The decoded text cannot tell them apart.)
+			var cls [3]bool
+			for _, b := range r.Seq {
+				if decodeTable[b] == "-" {
+					switch b & 0xF0 {
+					case 0:
+						cls[0] = true
+					case 0xF0:
+						cls[1] = true
+					default:
+						cls[2] = true
+					}
+				}
+			}
+			sb.WriteString("\t")
+			for k, c := range "hsx" {
+				if cls[k] {
+					sb.WriteRune(c)
+				}
+			}
 		}
 		sb.WriteString("\n")
 	}
@@ -102,11 +124,23 @@ func runReader(c *Case, o *Opts, env *ioEnv, out *simWriter) error {
 	return err
 }
 
-func readerModel(a Aln, descs []string, scored bool) string {
+func readerModel(a Aln, descs []string, rd string, hard bool) string {
+	scored := rd == "reader:score"
 	var sb strings.Builder
 	for i, n := range a.Names {
 		s := upper(a.Seqs[i])
 		fmt.Fprintf(&sb, "%d\t%s\t%s\t%s", i, n, descs[i], s)
+		if rd == "reader:encode" || rd == "reader:list" {
+			// gaps are hard (compatible with nothing) exactly under the hard-gaps option, in every encoding reader
+			switch {
+			case !strings.Contains(s, "-"):
+				sb.WriteString("\t")
+			case hard:
+				sb.WriteString("\th")
+			default:
+				sb.WriteString("\ts")
+			}
+		}
 		if scored {
 			score := 0
 			var cnt [4]int
@@ -302,6 +336,13 @@ func genC16(r *Rand, tier string, ord int) *Trial {
 		ref = genRefSeq(r, w)
 		a = genAln(r, ref, alnSpec{W: w, N: 2, Prof: profN, SNP: 0.01, Prefix: "s"})
 		lay = Layout{}
+		if r.P(0.4) {
+			// ... and a header line (ID + description) longer than 64 KiB over short sequences
+			w = r.Range(4, 40)
+			ref = genRefSeq(r, w)
+			a = genAln(r, ref, alnSpec{W: w, N: 2, Prof: profN, SNP: 0.1, Prefix: "s"})
+			lay = Layout{Desc: true, LongDesc: r.PickInt(65530, 65536, 65537, 65544, 70000, 140000), CRLF: r.P(0.3)}
+		}
 		text = a.FASTA(lay)
 	}
 	switch {
@@ -312,7 +353,7 @@ func genC16(r *Rand, tier string, ord int) *Trial {
 			t.Kind = "valid-long-line"
 			lay2 = Layout{Width: 60}
 		}
-		lay2.Desc, lay2.Sep, lay2.Lead = lay.Desc, lay.Sep, lay.Lead
+		lay2.Desc, lay2.Sep, lay2.Lead, lay2.LongDesc = lay.Desc, lay.Sep, lay.Lead, lay.LongDesc
 		t.Case = Case{Cmd: "readers", Files: map[string]string{"fasta": text, "fasta2": a.FASTA(lay2)}}
 		t.Params["names"] = strings.Join(a.Names, ",")
 		t.Params["seqs"] = strings.Join(a.Seqs, ",")
@@ -397,7 +438,7 @@ func checkC16(t *Trial, ctx *Ctx) *Failure {
 			if res.Err != nil {
 				return &Failure{Class: "C16/valid-file-rejected{" + rd + "}", Detail: fmt.Sprintf("%q: %v", c.Files["fasta"], res.Err)}
 			}
-			want := readerModel(a, descs, rd == "reader:score")
+			want := readerModel(a, descs, rd, c.Opts.HardGaps)
 			if got := string(res.Stdout); got != want {
 				return &Failure{Class: "C16/records-differ-from-model{" + rd + "}", Detail: fmt.Sprintf("file %q (chunk mode %d)\n%s\n--- model:\n%s--- %s:\n%s", c.Files["fasta"], t.Runs[i].Chunk, firstDiff(want, got), want, rd, got)}
 			}
